@@ -298,7 +298,11 @@ func (in *Interp) exec(s Stmt, sc *scope) (signal, Val) {
 	case *Continue:
 		return sigContinue, nil
 	case *Append:
-		arr := in.eval(st.Arr, sc).(*DynV)
+		av := in.eval(st.Arr, sc)
+		if r, ok := av.(*RefV); ok {
+			av = r.Get()
+		}
+		arr := av.(*DynV)
 		arr.E = append(arr.E, copyVal(in.eval(st.Val, sc)))
 	case *Block:
 		return in.execBlock(st.Body, sc)
@@ -327,6 +331,9 @@ func valEq(a, b Val) bool {
 func show(v Val, t *Type) string {
 	switch x := v.(type) {
 	case *big.Int:
+		if t != nil && t.Byte {
+			return string(rune(x.Int64()))
+		}
 		return x.String()
 	case bool:
 		if x {
